@@ -254,6 +254,8 @@ def run(pid, tier, seed):
             ns = neigh[:k]
             files = {fname: fdata}
             argv = ["--color", "never"]
+            if rng.random() < 0.3:
+                argv.append("--summary")      # (the summary goes to stderr; it walks every source's reader and error state)
             if label.startswith("disorder") and label.endswith("+window"):
                 # a window makes the plain reader binary-search a file that is not sorted
                 argv += rng.choice([["-a", "2023-11-20T00:00:00+00:00"], ["-a", "2023-11-15T03:20:00+00:00", "-b", "2023-11-16T10:20:00+00:00"],
